@@ -291,6 +291,51 @@ pub fn c15(ctx: &Ctx) -> (CheckMeta, Outcome) {
             }
         }
     }
+    // single-value sweep: one observation of every value of the boundary grids of all tracked codes
+    // (every 2^i +- 2, multiples of every Golomb modulus around every power of two, step points, seeded
+    // extras) and of 0..4096 must add exactly the reference length to every field
+    {
+        let tr = tracked();
+        let mut vals: std::collections::BTreeSet<u64> = (0..4096u64).collect();
+        for (_, c) in &tr {
+            vals.extend(crate::grid::boundary_values_raw(*c, ctx.seed, 12).into_iter().filter(|&v| v < u64::MAX - 1));
+        }
+        let vals: Vec<u64> = vals.into_iter().collect();
+        let mut tasks: Vec<Task> = vec![];
+        for chunk in vals.chunks(512) {
+            let chunk: Vec<u64> = chunk.to_vec();
+            tasks.push(Box::new(move || {
+                let mut out = Outcome::new();
+                let tr = tracked();
+                for &v in &chunk {
+                    out.cov.evaluations += 1;
+                    if v >= 4096 {
+                        out.cov.nontrivial += 1;
+                    }
+                    let r = std::panic::catch_unwind(|| {
+                        let mut s = Stats::default();
+                        s.update(v);
+                        s
+                    });
+                    match r {
+                        Ok(s) => {
+                            let f = fields(&s);
+                            for (i, (name, code)) in tr.iter().enumerate() {
+                                let want = ref_len(*code, v) as u64;
+                                if f[i] != want {
+                                    bad(&mut out, "stats", "update", "total", format!("after observing {} once, field {} = {} but {:?} needs {} bits", v, name, f[i], code, want), &[v]);
+                                    break;
+                                }
+                            }
+                        }
+                        Err(p) => bad(&mut out, "stats", "update", "panic", format!("update({}) panicked: {}", v, crate::util::panic_msg(&p)), &[v]),
+                    }
+                }
+                out
+            }));
+        }
+        pre.merge(run_all(tasks, threads()));
+    }
     let cost = |c: Code, v: u64| ref_len(c, v) as u64;
     // all multisets of size <= 4 over the alphabet
     let mut multisets: Vec<Vec<u64>> = vec![vec![]];
@@ -381,7 +426,7 @@ pub fn c15(ctx: &Ctx) -> (CheckMeta, Outcome) {
     let meta = CheckMeta {
         property: "C15".into(),
         level: "model_checking".into(),
-        rule: "concurrent half: loom (the wrapper's Mutex is loom's under --cfg dsi_bitstream_verif) explores every interleaving, within the preemption bound stated per model, of 2-3 threads performing 1-3 reads/writes through ONE shared CodesStatsWrapper; after join the statistics must equal the sequential result (states = executions explored). Sequential half: ALL 1001 multisets of size <= 4 over the 10-value alphabet {0,1,63,64,1023,1024,65535,65537,2^32,2^40+1}: every public total = sum of reference codeword lengths (cross-checked against the real writer's actual sizes where the codeword is <= 4096 bits) under the code/parameter the field denotes; total count; best_code() = argmin with that cost and re-encoding with the returned code costs exactly that; for EVERY one of the 55 tracked fields, statistics built through the public fields in which that field is the strict minimum must report the code that field denotes; update_many with multiplicities; every split into <= 3 parts merged by add, +=, +, sum and a reordered +; statistics gathered by CodesStatsWrapper on writes and on reads (dynamic and static dispatch) for three wrapped codes".into(),
+        rule: "concurrent half: loom (the wrapper's Mutex is loom's under --cfg dsi_bitstream_verif) explores every interleaving, within the preemption bound stated per model, of 2-3 threads performing 1-3 reads/writes through ONE shared CodesStatsWrapper; after join the statistics must equal the sequential result (states = executions explored). Sequential half: a single-value sweep (every value below 4096 and the boundary grids of all 55 tracked codes, incl. multiples of every Golomb modulus around every power of two: each field grows by exactly the reference length); ALL 1001 multisets of size <= 4 over the 10-value alphabet {0,1,63,64,1023,1024,65535,65537,2^32,2^40+1}: every public total = sum of reference codeword lengths (cross-checked against the real writer's actual sizes where the codeword is <= 4096 bits) under the code/parameter the field denotes; total count; best_code() = argmin with that cost and re-encoding with the returned code costs exactly that; for EVERY one of the 55 tracked fields, statistics built through the public fields in which that field is the strict minimum must report the code that field denotes; update_many with multiplicities; every split into <= 3 parts merged by add, +=, +, sum and a reordered +; statistics gathered by CodesStatsWrapper on writes and on reads (dynamic and static dispatch) for three wrapped codes".into(),
         assumptions: vec!["loom models sequentially consistent executions plus its C11 memory model for the Mutex; preemption bound 3 (unbounded for the smallest models)".into()],
     };
     (meta, out)
